@@ -178,5 +178,10 @@ def search(ctx, corr, broken):
 
 
 def replay(prop, payload):
-    res = check(dict(seed=0, tier='quick', prop=prop))
-    return any(i['layer'] == 'oracle' and i['what'].startswith(payload['how'][:5]) for i in res['issues'])
+    # the primitives are stateless by contract, but a defect may depend on what was called before (caches): the
+    # replay re-runs the generator's whole call sequence, in the tier in which the input was found
+    for tier in ('quick', 'thorough'):
+        res = check(dict(seed=0, tier=tier, prop=prop))
+        if any(i['layer'] == 'oracle' and i['what'].startswith(payload['how'][:5]) for i in res['issues']):
+            return True
+    return False
